@@ -20,7 +20,7 @@ import (
 
 func init() {
 	Register(&Scenario{Prop: "C09", Name: "multi-db-isolation", Run: scenC09, SoftParks: true, Weight: 3,
-		Rule: "instance P with 2-4 databases (types and write lists mixed) on its default shared event bus, peer Q (and sometimes R) opening a random subset; one database is kept idle after setup; 4-14 (thorough 4-36) writes on the other databases from any peer holding them (one operation in four writes to all of a peer's active databases at the same time, one or two writers per database), replication under faults, Load(-1) on a non-idle database, SaveSnapshot of a non-idle database while its replicator has unfinished work followed by LoadFromSnapshot into the same store, and (one operation in six) a head exchange for one database sent to P on the direct channel by a hostile peer that P refuses with an error (real head, address of another block), followed by a write on another shared database made while the writer is cut off from P (heard after the heal through the head exchange alone); oracles: every payload published on a database topic or a direct channel names one database and carries only heads of that database's log; the idle database's log, replication status and cached head keys never change and no store event carries its address; every EventWrite/EventReplicated carries only entries of its own database; after a final reconnect of all peers every holder of a database has every acknowledged write of that database; non-trivial = >=2 active databases on P, >=1 replication into P and >=1 write on P while the idle database was watched"})
+		Rule: "instance P with 2-4 databases (types and write lists mixed) on its default shared event bus, peer Q (and sometimes R) opening a random subset; one database is kept idle after setup; 4-14 (thorough 4-36) writes on the other databases from any peer holding them (one operation in four writes to all of a peer's active databases at the same time, one or two writers per database; a third of these rounds run on a healthy network, and every holder of a database must then have each of these writes 30 virtual seconds later, from the announcements alone), replication under faults, Load(-1) on a non-idle database, SaveSnapshot of a non-idle database while its replicator has unfinished work followed by LoadFromSnapshot into the same store, and (one operation in six) a head exchange for one database sent to P on the direct channel by a hostile peer that P refuses with an error (real head, address of another block), followed by a write on another shared database made while the writer is cut off from P (heard after the heal through the head exchange alone); oracles: every payload published on a database topic or a direct channel names one database and carries only heads of that database's log; the idle database's log, replication status and cached head keys never change and no store event carries its address; every EventWrite/EventReplicated carries only entries of its own database; after a final reconnect of all peers every holder of a database has every acknowledged write of that database; non-trivial = >=2 active databases on P, >=1 replication into P and >=1 write on P while the idle database was watched"})
 }
 
 type c09db struct {
@@ -229,6 +229,23 @@ func scenC09(k *K) {
 			// share the instance's bus, their announcements are prepared concurrently)
 			var ops []*Op
 			var odbs []*c09db
+			// a third of these rounds run on a healthy network (all links up and the membership
+			// settled before, no drops, reordering or stalls during and after): every peer that
+			// holds one of the databases then learns of each of these writes from the
+			// announcements alone, without any later head exchange
+			healthy := k.C.Chance(1, 3)
+			savedF := k.F
+			if healthy {
+				for x := 0; x < np; x++ {
+					for y := x + 1; y < np; y++ {
+						k.Heal(x, y)
+					}
+				}
+				k.F = BenignCfg()
+				k.Settle(8*time.Second, 400, nil)
+				k.F = BenignCfg()
+				k.W.Stat("writes-on-several-databases-on-a-healthy-network")
+			}
 			// one writer per database, or (half the time) two: more announcements prepared
 			// at the same moment through what the instance's stores share
 			per := k.C.Range(1, 2)
@@ -272,6 +289,29 @@ func scenC09(k *K) {
 				}
 			}
 			k.W.Stat("writes-on-several-databases-at-once")
+			if healthy {
+				k.Settle(30*time.Second, 1500, nil)
+				for j, o := range ops {
+					if !(k.IsDone(o) && o.Err == nil) {
+						continue
+					}
+					w, ok := o.Val.(operation.Operation)
+					if !ok || w == nil {
+						continue
+					}
+					h := w.GetEntry().GetHash().String()
+					for q := 0; q < np; q++ {
+						if q == pi || odbs[j].stores[q] == nil {
+							continue
+						}
+						if !LogHashSet(odbs[j].stores[q])[h] {
+							rs, _ := ReplStats(odbs[j].stores[q])
+							k.Failf("C09/announcement-lost", "on a healthy network peer %d wrote %s to %s while %d writes on databases of its instance were under way at once; 30 virtual seconds later peer %d, which holds that database, has not got the entry (replicator %+v; pending=%v)", pi, EntryName(w.GetEntry()), short(odbs[j].addr), len(ops), q, rs, k.PendingDesc())
+						}
+					}
+				}
+				k.F = savedF
+			}
 			k.Steps(k.C.Intn(8))
 			continue
 		}
